@@ -129,6 +129,24 @@ def run(chk, n):
         for w, (kind, cs) in by_kind.items():
             mgmt.run_cases(chk, kind, cs, reload_check, label=f"random-{kn}")
         chk.extra.setdefault("strata", {})[f"random_{kn}"] = len(cases)
+    # the same on the AsyncEnforcer (each call awaited): async_internal_enforcer.py is a separate copy of the code
+    from ..async_facade import AsyncFacade
+    for kn in ("acl", "rbac", "dom"):
+        cases = make_cases(rng, kn, max(30, n // 3))
+        by_kind = {}
+        for kind, rows, lf, ops in cases:
+            by_kind.setdefault(kind.watcher, (kind, []))[1].append((rows, lf, ops))
+        for w, (kind, cs) in by_kind.items():
+            mgmt.run_cases(chk, kind, cs, reload_check_async, label=f"random-async-{kn}", impl_kwargs=dict(enforcer_cls=AsyncFacade),
+                           key_fn=lambda k, r, o: ("async", k.name, repr([x for x in o if x[0] < 50])))
+        chk.extra["strata"][f"random_async_{kn}"] = len(cases)
+
+
+def reload_check_async(kind, rows, lf, ops, obs, impl):
+    return reload_check(kind, rows, lf, ops, obs, impl)
+
+
+reload_check_async.case_extra = dict(enforcer="AsyncEnforcer")
 
 
 def main():
@@ -136,12 +154,18 @@ def main():
     chk.rule = ("management histories (single/batch/filtered/update/update_filtered, RBAC-API wrappers, valid and rejected "
                 "calls) against a recording in-memory adapter implementing the adapter, batch-adapter and update-adapter "
                 "interfaces; 25% of the histories run with auto-save off and end in save_policy; every history ends in "
-                "probe + load_policy + probe; non-trivial = at least one mutating call; distinct by (kind, mutating calls)")
+                "probe + load_policy + probe; the same on the AsyncEnforcer (every call awaited) for ACL / RBAC / domain models; "
+                "non-trivial = at least one mutating call; distinct by (kind, mutating calls)")
     chk.assumptions = ["the adapter is faithful: it applies each call to its rows as Mgmt.apply_acall does and returns None",
                        "clear_policy is memory-only by design; histories here contain none"]
     chk.trusted = ["hand-written models coq/theories/{Policy,RoleGraph,Mgmt}.v tied by the differential history correspondence"]
     chk.build(oracle_name="Mgmt")
     if chk.replay_file:
+        import json
+        c = (json.load(open(chk.replay_file)).get("case") or {})
+        if c.get("enforcer") == "AsyncEnforcer":
+            from ..async_facade import AsyncFacade
+            return mgmt.replay_case(chk, reload_check_async, impl_kwargs=dict(enforcer_cls=AsyncFacade))
         return mgmt.replay_case(chk, reload_check)
     if chk.tier == "thorough":
         run(chk, 1500)
